@@ -245,6 +245,12 @@ func systematicPkgCases(id *int, profile, scratch string, rng *rand.Rand, tier s
 			c.Version, c.Schema, c.Prerelease, c.Metadata, c.Release = v.ver, v.schema, v.pre, v.meta, v.rel
 			add(c, smallTree(), "version-edges")
 		}
+		// names archlinux does not take (a character outside [A-Za-z0-9._+-], a leading hyphen or dot): archlinux refuses to
+		// build, the other formats use the name as it is
+		for _, nm := range []string{"openssl@1.1", "has~tilde", "-lead", ".dot", "ok.name+x_1"} {
+			c := baseCfg(nm)
+			add(c, smallTree(), "arch-name-rule")
+		}
 		// a platform other than linux (deb prefixes the architecture with it; apk and archlinux refuse)
 		for _, plat := range []string{"freebsd", "kfreebsd", "darwin"} {
 			c := baseCfg("platpkg")
@@ -625,6 +631,12 @@ func systematicPkgCases(id *int, profile, scratch string, rng *rand.Rand, tier s
 			}
 			c.Entries = []Entry{plain, e}
 			add(c, smallTree(), "expand-typed")
+			// ... and addressed to one packager: opting in to expansion does not change whom the entry is for
+			c2 := baseCfg("expandtag")
+			e2 := e
+			e2.Tag = []string{"rpm", "deb", "apk"}[len(ty)%3]
+			c2.Entries = []Entry{plain, e2}
+			add(c2, smallTree(), "expand-tagged")
 		}
 		// top-level names that sort before ".PKGINFO"; a symlink to an existing non-empty file followed by more members
 		{
@@ -632,6 +644,15 @@ func systematicPkgCases(id *int, profile, scratch string, rng *rand.Rand, tier s
 			c.Entries = []Entry{{Type: "file", Src: "src/app.conf", Dst: "/.hidden-top"}, {Type: "file", Src: "src/app.conf", Dst: "/+plus"},
 				{Type: "symlink", Src: "/etc/hostname", Dst: "/opt/a-link"}, {Type: "file", Src: "src/bin", Dst: "/opt/z-after-link"}, plain}
 			add(c, smallTree(), "top-level")
+		}
+		// a directory declared BEFORE the entries beneath it keeps what was declared for it (mode, owner, group)
+		{
+			c := baseCfg("dirfirstpkg")
+			c.Entries = []Entry{{Type: "dir", Dst: "/opt/dirfirst", Fi: Fi{Owner: "app", Group: "grp", Mode: 0o2750}, HasFi: true},
+				{Type: "dir", Dst: "/opt/dirfirst/bin/", Fi: Fi{Mode: 0o700}, HasFi: true},
+				{Type: "file", Src: "src/bin", Dst: "/opt/dirfirst/bin/tool"}, {Type: "config", Src: "src/app.conf", Dst: "/opt/dirfirst/etc/app.conf"},
+				{Type: "dir", Dst: "/opt/dirfirst/etc", Fi: Fi{Owner: "cfg"}, HasFi: true}, plain}
+			add(c, smallTree(), "dir-before-children")
 		}
 		// explicit special bits, every umask
 		for _, um := range []int{0, 0o02, 0o22, 0o27, 0o77} {
